@@ -32,6 +32,9 @@ Step ==
      ELSE LET o == ObsOf(e) IN
           /\ (~SurfaceOK(e.c, o) =>
                 PrintT(<<"VIOL", ToJson([line |-> l, case |-> e.case, props |-> {"C15"}, why |-> Why(e.c, o), msg |-> ""])>>))
+          /\ (~SigOK(e.c, o) =>
+                PrintT(<<"VIOL", ToJson([line |-> l, case |-> e.case, props |-> {"C19"},
+                                         why |-> "a requested item does not have the documented (return) type", msg |-> ""])>>))
           \* C09 (metamorphic): e.peer lists, for items of this case, the const-ness the SAME item had in an earlier case of
           \* the SAME declaration under another configuration (refcase: that event's line).  Whether an item can be called
           \* in a constant expression is observable; it must not depend on the mode or on the co-enabled features.
